@@ -50,7 +50,43 @@ func repf(n int, sep string, f func(i int) string) string {
 
 const deepChain = 1 << 15 // cap for families whose tree depth equals n
 
+// statementKinds: one small statement of every kind the grammar has; each becomes a family "n statements of that kind"
+// (what a per-call state - indentation level, buffers, counters - accumulates over the statements of one script only
+// shows with many statements of the kind that leaks it).
+var statementKinds = []struct{ name, sql string }{
+	{"create-table", "CREATE TABLE t1 (c1 INT, c2 VARCHAR(10))"},
+	{"create-index", "CREATE INDEX i1 ON t1 (c1)"},
+	{"create-view", "CREATE VIEW v1 AS SELECT a, b FROM t1"},
+	{"create-matview", "CREATE MATERIALIZED VIEW v1 AS SELECT a, b FROM t1"},
+	{"refresh-matview", "REFRESH MATERIALIZED VIEW v1"},
+	{"drop", "DROP TABLE t1"},
+	{"alter-table", "ALTER TABLE t1 ADD COLUMN c9 INT"},
+	{"truncate", "TRUNCATE t1"},
+	{"insert-values", "INSERT INTO t1 (c1, c2) VALUES (1, 2)"},
+	{"insert-select", "INSERT INTO t1 (c1) SELECT a FROM t2 WHERE b = 1"},
+	{"insert-on-conflict", "INSERT INTO t1 (c1) VALUES (1) ON CONFLICT (c1) DO UPDATE SET c1 = 2"},
+	{"update", "UPDATE t1 SET c1 = 1, c2 = 2 WHERE c3 = 3"},
+	{"delete", "DELETE FROM t1 WHERE c1 = 1"},
+	{"merge", "MERGE INTO t1 a1 USING t2 a2 ON a1.c1 = a2.c1 WHEN MATCHED THEN UPDATE SET c2 = a2.c2"},
+	{"with-select", "WITH w AS (SELECT a FROM t1) SELECT a, b FROM w"},
+	{"select-window", "SELECT a, SUM(b) OVER (PARTITION BY c ORDER BY d) FROM t1"},
+	{"select-derived-join", "SELECT a, b FROM t1 JOIN (SELECT c FROM t2) d ON a = c"},
+	{"select-setop", "SELECT a, b FROM t1 UNION SELECT c, d FROM t2"},
+	{"select-case", "SELECT CASE WHEN a = 1 THEN 2 ELSE 3 END, b FROM t1"},
+}
+
 func families() []family {
+	fs := baseFamilies()
+	for _, k := range statementKinds {
+		k := k
+		fs = append(fs, family{name: "many:" + k.name, doc: "n statements of one kind, one per line: " + k.sql, bytesPer: len(k.sql) + 2,
+			gen:   func(n int) string { return rep(n, k.sql, ";\n") },
+			sizes: func(bool) []int { return []int{64, 128, 256, 512, 1024} }})
+	}
+	return fs
+}
+
+func baseFamilies() []family {
 	return []family{
 		{name: "line-tokens", doc: "one long line: SELECT c, c, ... (n-wide select list, 2n tokens)", bytesPer: 3,
 			gen: func(n int) string { return "SELECT " + rep(n, "c", ", ") + " FROM t" }},
